@@ -93,6 +93,12 @@ theorem fresh_refinement_on (cfg : Config) (G : String → Bool) (hc : CfgOK cfg
       structural f inst = structural f ⟨inst.elts, buildTab inst.elts, []⟩) :=
   inv_implies_fresh cfg G hc _ (Cache.inv_run hc ops (inv_empty (cfg := cfg) (G := G)) hr) i inst hi
 
+/-- what a query observes: the provenance of every memo slot it reads AND the element dictionary it is asked on (so the
+    observation of a query that reads no memo slot at all -- `cpts`, `netlist`, `copy`, `Isc` (which works on a killed
+    copy), ... -- is not empty: it is the elements; what such a query computes from them and from the node table is the
+    `structural` half of the refinement theorems) -/
+def observation (cfg : Config) (w : World) (i : Nat) (q : String) : Prov × List Elt := (answer cfg w i q, eltsOf w i)
+
 /-- FULL PROPERTY.  If `_invalidate` clears every memoised member, `add` (for a single line AND for
     a multi-line string) and `remove` call it,
     overriding a name detaches the old component, `remove` and the override detach the component from
@@ -133,6 +139,19 @@ def exCfg3 : Config where
   deps := [("b", ["a", "c"])]
   reads := [("q", ["a", "c", "b"])]
   spawns := ["b"]
+
+/-- the same with the non-empty observation: provenance of the slots read together with the elements -/
+theorem fresh_refinement_observation (cfg : Config)
+    (hclr : ∀ p ∈ cfg.memoised, cfg.isCleared p.1 = true)
+    (hadd : cfg.addInvalidates = true) (hmulti : cfg.addMultiInvalidates = true)
+    (hrem : cfg.removeInvalidates = true) (hdet : cfg.overrideDetaches = true)
+    (hrsel : cfg.removeSel = .all) (hosel : cfg.overrideSel = .all) (hdmg : cfg.damages = [])
+    (ops : List Op) (hpub : ∀ op ∈ ops, op.isPublic) (hok : NoRaise cfg World.empty ops)
+    (i : Nat) (inst : Inst) (hi : (run cfg World.empty ops).insts[i]? = some inst) (q : String) :
+    observation cfg (run cfg World.empty ops) i q = observation cfg (build inst.elts) 0 q ∧
+    (observation cfg (run cfg World.empty ops) i q).2 = inst.elts := by
+  have h := (fresh_refinement cfg hclr hadd hmulti hrem hdet hrsel hosel hdmg ops hpub hok i inst hi).1 q
+  simp [observation, h, eltsOf, hi, build]
 
 /-- the hypotheses of `fresh_refinement` are satisfiable by a configuration with live memo slots of
     every kind and a history with an override, queries, a removal, a failing-free copy and work on
@@ -186,7 +205,13 @@ theorem fresh_refinement_partial (cfg : Config) (G : String → Bool) (hG : cfgO
 /-! ## isolation -/
 
 /-- an operation aimed at another instance (mutation, query, derivation) leaves this instance's
-    elements, node table and per-instance memo slots exactly as they were -/
+    elements, node table and per-instance memo slots exactly as they were.
+    MODEL-STRUCTURAL: this holds of EVERY configuration because every operation of the model only does
+    `insts.set i`; the model has no sharing between instances that could be violated.  For lcapy, "modifying a copy
+    never changes the original" rests on the correspondence stream (copies / derived circuits are mutated afterwards and
+    the source is compared with a fresh rebuild after every operation on ANY instance), on the `source-changed` oracle,
+    and on the code-side tables of Props/C16Tables.lean (`shared_cached_objects_not_mutated`) and
+    Props/C16PureCode.lean (`read_only_members_write_only_memo_state_partial`). -/
 theorem copy_isolated (cfg : Config) (w : World) (op : Op) (k : Nat) (hk : k < w.insts.length)
     (ht : op.target ≠ some k) : (step cfg w op).1.insts[k]? = w.insts[k]? := by
   cases op with
@@ -200,7 +225,8 @@ theorem copy_isolated (cfg : Config) (w : World) (op : Op) (k : Nat) (hk : k < w
   | addFail i es e late => exact addFail_other _ _ _ _ _ _ (fun h => ht (by simp [Op.target, h]))
 
 /-- deriving a circuit (copy, subs, kill, select, simplify, ...) leaves the source's elements and
-    node table unchanged, whatever is later done to the derived instance (by `copy_isolated`) -/
+    node table unchanged, whatever is later done to the derived instance (by `copy_isolated`).
+    MODEL-STRUCTURAL (see `copy_isolated`): in the model a derived instance is built from an INPUT list of elements. -/
 theorem derive_keeps_source (cfg : Config) (w : World) (i : Nat) (pre : String) (es : List Elt)
     (hi : i < w.insts.length) :
     ((step cfg w (.derive i pre es)).1.insts[i]?).map (fun x : Inst => (x.elts, x.tab)) =
